@@ -347,3 +347,19 @@ func (t Tree) Hash() uint64 {
 	}
 	return h
 }
+
+// DiffExec reports regular files present in both trees whose executable bit differs (Diff leaves
+// permission bits alone; a build does say which of its files are executable).
+func (a Tree) DiffExec(b Tree) string {
+	var out []string
+	for _, p := range a.Paths() {
+		ea, eb := a[p], b[p]
+		if eb == nil || ea.Kind != KFile || eb.Kind != KFile || ea.Exec == eb.Exec {
+			continue
+		}
+		if len(out) < 6 {
+			out = append(out, fmt.Sprintf("%s executable=%v, expected %v", p, eb.Exec, ea.Exec))
+		}
+	}
+	return strings.Join(out, "; ")
+}
